@@ -104,7 +104,34 @@ KINDS = ["function", "function", "partial", "method", "callable-object"]
 HISTORY = []  # (kind, signature) of every factory this process has handed to einx, in order
 
 
+def resolve_op(name):
+    """einx.<name>, or for 'adapted:<ufunc>' a user function adapted with einx.numpy.adapt_numpylike_elementwise (one
+    adapter per name and process)."""
+    import einx
+    import einx.numpy
+
+    if not name.startswith("adapted:"):
+        return getattr(einx, name)
+    if name not in _ADAPTED:
+        g = getattr(np, name.split(":", 1)[1])
+
+        def user_elementwise(*xs):
+            out = xs[0]
+            for x in xs[1:]:
+                out = g(out, x)
+            return out
+
+        _ADAPTED[name] = einx.numpy.adapt_numpylike_elementwise(user_elementwise)
+    return _ADAPTED[name]
+
+
+_ADAPTED = {}
+
+
 def kwargs_ok(sig, kw, op, index):
+    if op.startswith("adapted:"):
+        # the operation name handed to factories is the adapter's business: any string is accepted here
+        kw = {k: (op if k == "name" and isinstance(v, str) else v) for k, v in kw.items()}
     if sig == "shape":
         return kw == {}
     if sig == "shape_name":
@@ -124,7 +151,7 @@ def work(item):
     case, subset, sigs, timeout_ms = item
     import einx
 
-    op = getattr(einx, case["op"])
+    op = resolve_op(case["op"])
     arrs = harness.build_inputs(case)
     krng = random.Random(f"{case['desc']}:{subset}:{sigs}")
     kinds = [krng.choice(KINDS) for _ in subset]
@@ -227,7 +254,7 @@ for kind, sig in SPEC["history"]:
     except Exception as e: print("history call failed:", kind, sig, type(e).__name__)
 facs = {{i: c13.Factory(args[i], sig, kind) for i, sig, kind in zip(SPEC["subset"], SPEC["sigs"], SPEC["kinds"])}}
 fa = [facs[i].fn if i in facs else a for i, a in enumerate(args)]
-op = getattr(einx, SPEC["op"])
+op = c13.resolve_op(SPEC["op"])
 bad = []
 try:
     op(SPEC["desc"], *fa, graph=True, **kw)
@@ -361,6 +388,9 @@ def main():
                     continue
                 c2 = dict(c, kwargs=kw)
                 items.append((c2, sub, [rng.choice(SIGS) for _ in sub], timeout_ms))
+                if fam == "elementwise" and c["op"] in ("add", "multiply", "maximum", "minimum") and c["kinds"] == ["int"] * len(c["kinds"]) and rng.random() < 0.5:
+                    # the same call through a user function adapted with adapt_numpylike_elementwise
+                    items.append((dict(c2, op="adapted:" + c["op"]), sub, [rng.choice(SIGS) for _ in sub], timeout_ms))
     results = runner.pmap(work, items, chunksize=4)
     status = collections.Counter()
     sig_count = collections.Counter()
@@ -422,7 +452,7 @@ def monitor_replay(name):
     path = os.path.join(runner.REPLAY_DIR, PROP, f"monitor_{name.replace(':', '_')}.py")
     with open(path, "w") as f:
         f.write(
-            "#!/venv/bin/python\nimport sys\nsys.path.insert(0, '/verif')\nsys.path.insert(0, '/repo')\n"
+            "#!/verif/.venv/bin/python\nimport sys\nsys.path.insert(0, '/verif')\nsys.path.insert(0, '/repo')\n"
             "from checks.c13 import misbehaving\n"
             f"bad = [m for m in misbehaving() if m[0] == {name!r} and m[1] != 'ok']\n"
             "print('REPRODUCED: ' + str(bad) if bad else 'NOT-REPRODUCED')\nsys.exit(1 if bad else 0)\n"
